@@ -6,10 +6,58 @@
 package rtp
 
 import (
+	"sync"
 	"time"
 
 	"github.com/pion/randutil"
 )
+
+// Under the "verif" tag the package-level generator starts out deterministic (it is replaced
+// right after its own initialiser ran, before any init function of the package), so that
+// whatever is drawn from it outside a simulated run is the same in every process and a
+// recorded run replays. The shipped build is not affected.
+var _ = func() struct{} { // nolint:gochecknoglobals
+	globalMathRandomGenerator = &verifInitRandom{state: 0x9E3779B97F4A7C15}
+
+	return struct{}{}
+}()
+
+type verifInitRandom struct {
+	mu    sync.Mutex
+	state uint64
+}
+
+func (r *verifInitRandom) next() uint64 {
+	r.mu.Lock()
+	defer r.mu.Unlock()
+	r.state += 0x9E3779B97F4A7C15
+	z := r.state
+	z = (z ^ (z >> 30)) * 0xBF58476D1CE4E5B9
+	z = (z ^ (z >> 27)) * 0x94D049BB133111EB
+
+	return z ^ (z >> 31)
+}
+
+func (r *verifInitRandom) Intn(n int) int {
+	if n <= 0 {
+		panic("invalid argument to Intn")
+	}
+
+	return int(r.next() % uint64(n)) // nolint:gosec
+}
+
+func (r *verifInitRandom) Uint32() uint32 { return uint32(r.next() >> 32) } // nolint:gosec
+func (r *verifInitRandom) Uint64() uint64 { return r.next() }
+
+func (r *verifInitRandom) GenerateString(n int, runes string) string {
+	rs := []rune(runes)
+	out := make([]rune, n)
+	for i := range out {
+		out[i] = rs[r.Intn(len(rs))]
+	}
+
+	return string(out)
+}
 
 // VerifSetRandom replaces the package-level random generator (initial packetizer
 // timestamp, random sequencer start) and returns a function restoring the previous one.
